@@ -17,7 +17,7 @@ type shapeNode struct {
 	nb    uint64
 }
 
-func collectShape(c *gkvlite.Collection) ([]shapeNode, error) {
+func collectShape(st *gkvlite.Store, c *gkvlite.Collection) ([]shapeNode, error) {
 	var nodes []shapeNode
 	min, err := c.MinItem(false)
 	if err != nil {
@@ -26,6 +26,7 @@ func collectShape(c *gkvlite.Collection) ([]shapeNode, error) {
 	if min == nil {
 		return nil, nil
 	}
+	defer st.ItemDecRef(c, min)
 	err = c.VisitItemsAscendEx(min.Key, false, func(i *gkvlite.Item, depth uint64) bool {
 		nodes = append(nodes, shapeNode{key: append([]byte(nil), i.Key...), prio: i.Priority, depth: int(depth)})
 		return true
@@ -75,8 +76,8 @@ func renderShape(ns []shapeNode, d int) string {
 		fmt.Sprint(n.nn) + "/" + fmt.Sprint(n.nb) + " " + renderShape(ns[ri+1:], d+1) + ")"
 }
 
-func shapeOf(c *gkvlite.Collection) string {
-	ns, err := collectShape(c)
+func shapeOf(st *gkvlite.Store, c *gkvlite.Collection) string {
+	ns, err := collectShape(st, c)
 	if err != nil {
 		return "err:" + strings.ReplaceAll(err.Error(), " ", "_")
 	}
